@@ -113,6 +113,10 @@ def ctx() -> Ctx:
     return _CTX[-1]
 
 
+def in_exploration() -> bool:
+    return bool(_CTX)
+
+
 def default_feasible(conds) -> bool:
     from . import discharge
 
